@@ -7,7 +7,10 @@ VERIF = Path(__file__).resolve().parent.parent
 sys.path.insert(0, str(VERIF))
 from harness import common  # noqa: E402
 
+only = {a.lower() for a in sys.argv[1:]}
 for f in sorted((VERIF / "harness").glob("c[0-9][0-9].py")):
+    if only and f.stem not in only:
+        continue
     m = importlib.import_module("harness." + f.stem)
     if hasattr(m, "regen"):
         ctx = common.Ctx(m, "quick", 0)
